@@ -42,7 +42,9 @@ def replay(case):
         if out['raised'] is not None:
             ok = (not inr) and out['raised'] in ('ValueError', 'OverflowError')
         elif out['kind'] == 'nan':
-            ok = not inr
+            ok = (not inr) and not (R < lo and rm in ('RTP', 'RAZ') and t['ov'] == 'OVERFLOW')
+        elif out['kind'] == 'fin' and R < lo and rm in ('RTZ', 'RTN') and t['ov'] == 'OVERFLOW':
+            ok = False
         elif out['kind'] == 'fin':
             ok = out['sign'] is False and ((out['D'] == R and bool(out['inexact']) == bool(d['inexact'])) if inr else ((out['D'] == hi and out['inexact'] and out['overflow']) if R > hi else (out['D'] == lo and out['inexact'])))
         else:
